@@ -123,6 +123,55 @@ def recoverBytes (crc : List Nat → Nat) (deser : List Nat → Option WalEntry)
   | .badCrc => .checksumError
   | e => .ok (fromEntries (r.1.filterMap deser)) r.1.length e
 
+/-! ### which frames the two sides accept
+
+  `RaftWal::append` → `write_entry_bytes` (raft_wal.rs) writes the record of an entry as ONE frame
+  `[len as u32][crc][payload]` whatever the payload's length: the write side has no per-record
+  limit, only the limit on the size of the whole file (`walAppend` below; for the node's WAL that is
+  `u64::MAX`).  `complete_frames_len` (`FramedLog.validPrefixLen`, used by `open`) walks the headers and
+  keeps every frame that is wholly in the file, whatever its length.  `replay_with_validation`
+  (`FramedLog.parse` above) reads `len` and then exactly that many bytes: the read side has no
+  per-record limit either.  The three therefore agree on every payload length the 4-byte length field
+  can hold: a `LogEntryFull` whose block carries megabytes of transaction data is written,
+  acknowledged, kept by `open` AND replayed — and so is every `TermAndVote` / `LogTruncate` /
+  `LogEntryFull` record written after it.  Nothing in `FramedLog.parse` depends on a payload's length
+  apart from the frame arithmetic, so every theorem of `Props.lean` holds for EVERY serializer `ser`,
+  i.e. for every assignment of payload lengths; `PropsReplay.lean` states the agreement on its own.
+
+  `parseCapped` / `recoverBytesCapped` are NOT the code: they are the variant in which the read side
+  alone refuses a frame whose length prefix exceeds `cap` ("a damaged length prefix must not make
+  replay allocate up to 4 GiB: stop as for a corrupted entry"), while `append` and `open` keep
+  accepting it.  Kept only for the contrast theorems and the `…_witness` of `PropsReplay.lean`.
+  Structural recursion on a fuel argument (the bytes left), so it evaluates under `decide`. -/
+
+def parseCappedAux (cap : Nat) (crc : List Nat → Nat) (decodable : List Nat → Bool) :
+    Nat → List Nat → List (List Nat) × FramedLog.PEnd
+  | 0, bs => ([], if bs.isEmpty then .clean else .torn)
+  | fuel + 1, bs =>
+    if bs.length < 8 then ([], if bs.isEmpty then .clean else .torn) else
+      let len := FramedLog.de32 (bs.take 4)
+      if cap < len then ([], .torn) else       -- the read-side limit: `break`
+      let c := FramedLog.de32 ((bs.drop 4).take 4)
+      let body := bs.drop 8
+      if body.length < len then ([], .torn) else
+        let p := body.take len
+        if c ≠ 0 ∧ c ≠ crc p then ([], .badCrc) else
+        if !decodable p then ([], .undecodable) else
+          let r := parseCappedAux cap crc decodable fuel (body.drop len)
+          (p :: r.1, r.2)
+
+def parseCapped (cap : Nat) (crc : List Nat → Nat) (decodable : List Nat → Bool) (bs : List Nat) :
+    List (List Nat) × FramedLog.PEnd :=
+  parseCappedAux cap crc decodable (bs.length + 1) bs
+
+/-- `from_wal` over a replay with the read-side frame-length limit `cap` (see above: not the code) -/
+def recoverBytesCapped (cap : Nat) (crc : List Nat → Nat) (deser : List Nat → Option WalEntry)
+    (bs : List Nat) : Recovered :=
+  let r := parseCapped cap crc (fun p => (deser p).isSome) bs
+  match r.2 with
+  | .badCrc => .checksumError
+  | e => .ok (fromEntries (r.1.filterMap deser)) r.1.length e
+
 
 /-! ### `RaftWal::append`: size limit and rotation
 
